@@ -226,6 +226,12 @@ pub fn main(args: &[String]) {
                             // the user closes the quote after a directory
                             line.push(if ctx == "dq" { '"' } else { '\'' });
                         }
+                        // the line goes through the list splitter first, as a submitted line does
+                        let cmds = v::line_to_cmds(&line);
+                        if cmds.len() != 1 {
+                            return Err("inserted-text-splits-the-line-into-several-commands".to_string());
+                        }
+                        let line = cmds[0].clone();
                         let cl = v::CommandLine::from_line(&line, &mut sh)
                             .map_err(|e| format!("line-rejected:{}", e.chars().take(20).collect::<String>()))?;
                         if cl.commands.len() != 1 || cl.background || !cl.commands[0].redirects_to.is_empty() || cl.commands[0].redirect_from.is_some() {
